@@ -8,6 +8,10 @@ use std::time::Instant;
 pub fn verif_dir() -> String {
     std::env::var("VERIF_DIR").unwrap_or_else(|_| "/verif".into())
 }
+/// where evidence/ and replays/ are written (mutant runs redirect this away from /verif)
+pub fn out_dir() -> String {
+    std::env::var("VERIF_OUT_DIR").unwrap_or_else(|_| verif_dir())
+}
 pub fn repo_dir() -> String {
     std::env::var("VERIF_REPO").unwrap_or_else(|_| "/repo".into())
 }
@@ -129,7 +133,7 @@ impl Report {
 
     /// write evidence, print verdict lines, return the process exit code
     pub fn finish(mut self, exhaustive: bool, rule: &str) -> i32 {
-        let dir = verif_dir();
+        let dir = out_dir();
         let wall = self.t0.elapsed().as_secs_f64();
         for (class, msg) in &self.known_hits {
             println!("KNOWN-FINDING: property={} {} — {}", self.prop, class, msg);
